@@ -31,6 +31,7 @@ static scpi_result_t mt_num(scpi_t * c) {
 static scpi_result_t mt_txt(scpi_t * c) { char * b = (char *) malloc(24); size_t l = 0; scpi_bool_t r; mt_hdr(c, "txt"); r = SCPI_ParamCopyText(c, b, 24, &l, TRUE); tr_printf("%d=[", (int) r); if (r) tr_add(b, l); tr_printf("];"); free(b); return r ? SCPI_RES_OK : SCPI_RES_ERR; }
 static scpi_result_t mt_txtq(scpi_t * c) { char * b = (char *) malloc(24); size_t l = 0; scpi_bool_t r; mt_hdr(c, "txtq"); r = SCPI_ParamCopyText(c, b, 24, &l, TRUE); tr_printf("%d=[", (int) r); if (r) { tr_add(b, l); b[l < 23 ? l : 23] = 0; SCPI_ResultText(c, b); } tr_printf("];"); free(b); return r ? SCPI_RES_OK : SCPI_RES_ERR; }
 static scpi_result_t mt_blk(scpi_t * c) { const char * p = NULL; size_t l = 0; scpi_bool_t r; mt_hdr(c, "blk"); r = SCPI_ParamArbitraryBlock(c, &p, &l, TRUE); tr_printf("%d=[", (int) r); if (r) tr_add(p, l); tr_printf("];"); return r ? SCPI_RES_OK : SCPI_RES_ERR; }
+static scpi_result_t mt_ib(scpi_t * c) { int32_t a = -1; const char * p = NULL; size_t l = 0; scpi_bool_t r1, r2; mt_hdr(c, "ib"); r1 = SCPI_ParamInt32(c, &a, TRUE); r2 = r1 ? SCPI_ParamArbitraryBlock(c, &p, &l, TRUE) : FALSE; tr_printf("%d=%d,%d=[", (int) r1, r1 ? a : 0, (int) r2); if (r2) tr_add(p, l); tr_printf("];"); return (r1 && r2) ? SCPI_RES_OK : SCPI_RES_ERR; }
 static scpi_result_t mt_dbl(scpi_t * c) { double d = -1; scpi_bool_t r; mt_hdr(c, "dbl"); r = SCPI_ParamDouble(c, &d, TRUE); tr_printf("%d=%.17g;", (int) r, r ? d : 0.0); if (r) SCPI_ResultDouble(c, d); return r ? SCPI_RES_OK : SCPI_RES_ERR; }
 static scpi_result_t mt_q1(scpi_t * c) { mt_hdr(c, "q1"); tr_printf(";"); SCPI_ResultInt32(c, 7); return SCPI_RES_OK; }
 static scpi_result_t mt_q2(scpi_t * c) { mt_hdr(c, "q2"); tr_printf(";"); SCPI_ResultInt32(c, 8); SCPI_ResultText(c, "a\"b"); return SCPI_RES_OK; }
@@ -59,7 +60,7 @@ static scpi_result_t mt_expr(scpi_t * c) {
 
 static const scpi_command_t mt_cmds[] = {
     {"AAAA:Bb", mt_plain, 1}, {"AAAA:Bb?", mt_plainq, 2}, {"AAAA[:Dd]:Ee", mt_plain, 3}, {"AAAA:Cc#", mt_plain, 4}, {"Bb", mt_plain, 5}, {"AAAA:Gg[:Hh]", mt_plain, 8}, {"AAAA:Gg[:Ii]", mt_plain, 9}, {"*XY", mt_plain, 6}, {"*XY?", mt_plainq, 7},
-    {"I2", mt_i2, 10}, {"OPT", mt_opt, 11}, {"CH", mt_ch, 12}, {"NUM", mt_num, 13}, {"TXT", mt_txt, 14}, {"TXT?", mt_txtq, 15}, {"BLK", mt_blk, 16}, {"DBL?", mt_dbl, 17}, {"ARR", mt_arr, 18}, {"EXPR", mt_expr, 19},
+    {"I2", mt_i2, 10}, {"OPT", mt_opt, 11}, {"CH", mt_ch, 12}, {"NUM", mt_num, 13}, {"TXT", mt_txt, 14}, {"TXT?", mt_txtq, 15}, {"BLK", mt_blk, 16}, {"IB", mt_ib, 32}, {"DBL?", mt_dbl, 17}, {"ARR", mt_arr, 18}, {"EXPR", mt_expr, 19},
     {"Q1?", mt_q1, 20}, {"Q2?", mt_q2, 21}, {"Q0?", mt_q0, 22}, {"Q0E?", mt_q0e, 23}, {"Q1E?", mt_q1e, 24}, {"QPART?", mt_qpart, 25}, {"QTAIL?", mt_qtail, 26}, {"QB?", mt_qb, 27}, {"Q1P?", mt_q1, 28},
     {"C0", mt_c0, 30}, {"CE", mt_ce, 31},
     {"*CLS", SCPI_CoreCls, 40}, {"*ESR?", SCPI_CoreEsrQ, 41}, {"*STB?", SCPI_CoreStbQ, 42}, {"*IDN?", SCPI_CoreIdnQ, 43}, {"SYSTem:ERRor[:NEXT]?", SCPI_SystemErrorNextQ, 44}, {"SYSTem:ERRor:COUNt?", SCPI_SystemErrorCountQ, 45},
